@@ -78,6 +78,7 @@ def run(prog, chk):
     chk.rule(C11.number_reader_rejects_only_what_parse_rejects, prog, chk)  # "never makes the transform fail": a number SVG allows (`.5`, `+5`) is read
     from props import strops
     chk.rule(strops.check_for, prog, chk, "C04")
+    chk.rule(strops.blank_only_separators, prog, chk)  # a pair / list cut at blanks is cut at tabs and newlines too
     chk.rule(strops.check_number_formatting, prog, chk)  # results are exact up to the 3-decimal *output* rounding  # A14.str-ops: how this property's strings are cut up is a reviewed, frozen inventory
 
 
